@@ -114,7 +114,7 @@ func (server *SugarDB) handleCommand(ctx context.Context, message []byte, conn *
 		ctx = context.WithValue(ctx, "ConnectionName", server.connInfo.embedded.Name)
 		ctx = context.WithValue(ctx, "Protocol", server.connInfo.embedded.Protocol)
 		ctx = context.WithValue(ctx, "Database", server.connInfo.embedded.Database)
-	} else {
+	} else if !replay {
 		// The call is triggered by a TCP connection.
 		// Add TCP connection info to the context of the request.
 		ctx = context.WithValue(ctx, "ConnectionName", server.connInfo.tcpClients[conn].Name)
